@@ -111,7 +111,7 @@ def gen(ch):
             return None   # an order book has no life time of its own (and compares its order dates with the grid as given)
         b.update(win)
         # the life time may also be given to the base asset alone: the scaled asset then is active (and pays its fix costs) over the whole horizon
-        base_only = bool(win) and kind != "scaled_ob" and ch.pick("window_on", ["both", "base_only"]) == "base_only"
+        base_only = bool(win) and kind != "scaled_ob" and ch.free("window_on", ["both", "base_only"]) == "base_only"
         mode = ch.pick("scale", ["fixed1", "fixed0.5", "fixed2", "fixed3", "free"])
         norm = ch.pick("norm", [1.0, 2.0, 4.0, 0.5])
         rate = ch.pick("fix_costs", [0.0, 0.1])
